@@ -344,6 +344,27 @@ def check(recipe, mode):
                     raise Violation('move-pair-rule-unsound', f'(Move({src2}->{dst2}) @ Move({recipe["src"]}->{recipe["dst"]})).reduce() '
                                                               f'changes the map on leaves of shapes {[sh for sh, _ in ls]}')
                 classes.append('near_miss_move_partner')
+    if recipe['op'] == 'move' and len(recipe['src']) >= 2:
+        # the would-be inverse with its axes PAIRED differently (same sets of source and destination axes, rotated
+        # pairing): not the inverse, the pair must keep denoting the composition
+        from furax import MoveAxisOperator
+
+        src2 = list(recipe['dst'])
+        dst2 = list(recipe['src'])[1:] + list(recipe['src'])[:1]
+        try:
+            ref = [np.moveaxis(a, tuple(src2), tuple(dst2)) for a in want]
+        except Exception:  # noqa: BLE001
+            ref = None
+        if ref is not None:
+            partner = must_not_raise('shuffled-move-partner', MoveAxisOperator, tuple(src2), tuple(dst2), in_structure=St.to_jax(out_S))
+            rp = must_not_raise('shuffled-move-pair-reduce', (partner @ op).reduce)
+            z = must_not_raise('shuffled-move-pair-mv', rp.mv, x)
+            gotz = St.flat_of_value(z)
+            wz = np.concatenate([a.reshape(-1) for a in ref])
+            if gotz.shape != wz.shape or not np.array_equal(gotz, wz):
+                raise Violation('move-pair-rule-unsound', f'(Move({src2}->{dst2}) @ Move({recipe["src"]}->{recipe["dst"]})).reduce() '
+                                                          f'changes the map on leaves of shapes {[sh for sh, _ in ls]}')
+            classes.append('shuffled_move_partner')
     nontrivial = len({len(sh) for sh, _ in ls}) >= 2
     if recipe['op'] == 'move':
         sg = [a < 0 for a in list(recipe['src']) + list(recipe['dst'])]
